@@ -136,6 +136,11 @@ func init() {
 		"net/http.Error":    extHTTPError,
 		"net/http.NotFound": extHTTPNotFound,
 
+		// ---- route parser: participle is reflection-driven; inside the interpreter the
+		// harness parser (validated natively against the real one on every run) stands in.
+		"github.com/flamego/flamego/internal/route.NewParser": extRouteNewParser,
+		"(*github.com/flamego/flamego/internal/route.Parser).Parse": extRouteParse,
+
 		// ---- logging (formatting and logging are never the subject)
 		"github.com/charmbracelet/log.NewWithOptions":        func(fr *frame, args []value) value { return (*value)(nil) },
 		"(*github.com/charmbracelet/log.Logger).StandardLog": func(fr *frame, args []value) value { return (*value)(nil) },
@@ -958,4 +963,22 @@ func (i *interpreter) selectSym(fr *frame, instr *ssa.Select) (value, bool) {
 	default:
 		return tuple{-1, false, elem}, true
 	}
+}
+
+const routePath = "github.com/flamego/flamego/internal/route"
+
+func extRouteNewParser(fr *frame, args []value) value {
+	pkg := fr.i.prog.ImportedPackage(routePath)
+	t := pkg.Type("Parser").Type()
+	cell := zero(t)
+	return tuple{&cell, iface{}}
+}
+
+func extRouteParse(fr *frame, args []value) value {
+	pkg := fr.i.prog.ImportedPackage(routePath)
+	f := pkg.Func("vParseRoute")
+	if f == nil {
+		panic(engineError("route harness parser (vParseRoute) is not overlaid"))
+	}
+	return call(fr.i, fr, token.NoPos, f, []value{args[1]})
 }
